@@ -29,9 +29,6 @@ theorem fromEntryList_entries : ∀ kvs : List (Bytes × JV),
   | (k, v) :: rest => by
     simp [fromEntryList, fromEntry_entry, fromEntryList_entries rest]
 
-/-- top-level keys pairwise different -/
-def DistinctKeys (kvs : List (Bytes × JV)) : Prop := kvs.Pairwise fun a b => b.1 ≠ a.1
-
 theorem kvLookup_of_mem_distinct (k : Bytes) (y : JV) : ∀ kvs : List (Bytes × JV), DistinctKeys kvs → (k, y) ∈ kvs →
     kvLookup k kvs = some y
   | [], _, h => by cases h
